@@ -136,11 +136,7 @@ func GenCluster(r *rand.Rand, p Profile, seed int64, w Wish) JCluster {
 				nc.MaxCommittedSize = []uint64{0, 30, 45, 60}[r.Intn(4)]
 				nc.MaxInflightMsgs, nc.MaxInflightBytes, nc.MaxUncommittedSize = 256, 0, 0
 			}
-			if nc.MaxSizePerMsg == 0 && nc.MaxCommittedSize == 0 {
-				// finding F3: MaxCommittedSizePerReady defaults to MaxSizePerMsg, and 0
-				// makes the first apply panic; exercised by a dedicated scenario only.
-				nc.MaxCommittedSize = 1
-			}
+
 			nc.MaxUncommittedSize = []uint64{0, 1, 20, 50, 100}[r.Intn(5)]
 		}
 		return nc
